@@ -66,6 +66,8 @@ EXC_BASES = {
     "IOError": "OSError",
     "FileNotFoundError": "OSError",
     "ImportError": "Exception",
+    "NameError": "Exception",
+    "UnboundLocalError": "NameError",
     "BadInputError": "ValueError",
 }
 
